@@ -28,9 +28,13 @@ type binDef struct {
 	out     map[string]string // what each task prints
 	slow    bool              // the first task takes 200 ms (a job that is still running when the next reload comes)
 	env     map[string]string // pipeline-level environment (EXTRA1, EXTRA2), printed by every task
+	empty   bool              // the file declares no pipeline
 }
 
 func (d binDef) yaml(vh string) string {
+	if d.empty {
+		return "pipelines: {}\n"
+	}
 	var sb strings.Builder
 	sb.WriteString("pipelines:\n  p:\n    concurrency: 8\n")
 	if len(d.env) > 0 {
@@ -57,6 +61,9 @@ func (d binDef) yaml(vh string) string {
 }
 
 func (d binDef) signature() string {
+	if d.empty {
+		return "<no pipeline>"
+	}
 	var parts []string
 	for i, n := range d.tasks {
 		dep := ""
@@ -95,7 +102,7 @@ func reloadBinary(t *testing.T, prop string) {
 		t.Skipf("prunner binary not built: %v", err)
 	}
 	vh := helper(t)
-	col := ev.Get(prop, "binary", "the real prunner binary (go build ./cmd/prunner from the tree under test) with a pipelines.yml that is rewritten 2-5 times between 3 generated versions of one pipeline (1-3 chained tasks that print version-specific text; versions may share task names, and a version may differ from the one before only by one more variable in the pipeline's env; the sequence often returns to an earlier version, e.g. A B A), reloaded by SIGUSR1 or by --watch with a 50 ms poll interval; after every rewrite jobs are scheduled over HTTP until one shows the new version (at most 3 s), and a slow job accepted just before the rewrite must keep the version it was accepted with; oracle: task names, dependencies (GET /job/detail) and output (GET /job/logs) of every job equal the version in force when it was accepted; non-trivial = the sequence returns to an earlier version; distinct by (mode, sequence, versions)")
+	col := ev.Get(prop, "binary", "the real prunner binary (go build ./cmd/prunner from the tree under test) with a pipelines.yml that is rewritten 2-5 times between 3 generated versions of one pipeline (1-3 chained tasks that print version-specific text; versions may share task names, and a version may differ from the one before only by one more variable in the pipeline's env; the sequence often returns to an earlier version, e.g. A B A, and may pass through a file that declares no pipeline at all: requests are then refused, and accepted again once the pipeline is back), reloaded by SIGUSR1 or by --watch with a 50 ms poll interval; after every rewrite jobs are scheduled over HTTP until one shows the new version (at most 3 s), and a slow job accepted just before the rewrite must keep the version it was accepted with; oracle: task names, dependencies (GET /job/detail) and output (GET /job/logs) of every job equal the version in force when it was accepted; non-trivial = the sequence returns to an earlier version; distinct by (mode, sequence, versions)")
 	auth := jwtauth.New("HS256", []byte(binSecret), nil)
 	_, token, _ := auth.Encode(map[string]interface{}{"sub": "bin"})
 	rapid.Check(t, func(rt *rapid.T) {
@@ -135,8 +142,14 @@ func reloadBinary(t *testing.T, prop string) {
 			if len(seq) >= 2 && rapid.IntRange(0, 2).Draw(rt, "back") > 0 {
 				next = seq[len(seq)-2] // back to the version before
 			}
+			if prev == 3 {
+				next = next % 3 // after the empty file a version with the pipeline again
+			} else if rapid.IntRange(0, 5).Draw(rt, "emptyFile") == 0 {
+				next = 3 // the file declares no pipeline at all
+			}
 			seq = append(seq, next)
 		}
+		defs = append(defs, binDef{version: 3, empty: true})
 		watch := rapid.Bool().Draw(rt, "watch")
 		writeDef := func(d binDef) {
 			tmp := filepath.Join(dir, "pipelines.yml.new")
@@ -240,9 +253,12 @@ func reloadBinary(t *testing.T, prop string) {
 		for i := 1; i < len(seq); i++ {
 			cur, prev := defs[seq[i]], defs[seq[i-1]]
 			// a job of the previous version that is still running when the file changes
-			oldID, code := schedule()
-			if code != 202 {
-				rt.Fatalf("schedule -> %d", code)
+			oldID := ""
+			if !prev.empty {
+				var code int
+				if oldID, code = schedule(); code != 202 {
+					rt.Fatalf("schedule -> %d", code)
+				}
 			}
 			time.Sleep(time.Duration(rapid.IntRange(0, 60).Draw(rt, "pauseMs")) * time.Millisecond)
 			writeDef(cur)
@@ -252,6 +268,24 @@ func reloadBinary(t *testing.T, prop string) {
 			start := time.Now()
 			for {
 				id, code := schedule()
+				if cur.empty {
+					// the pipeline is gone: requests for it are refused from some moment on
+					if code != 202 {
+						break
+					}
+					if time.Since(start) > 3*time.Second {
+						rt.Fatalf("["+prop+"] %s: 3 s after rewrite %d removed the last pipeline, requests for it are still accepted", plan, i)
+					}
+					time.Sleep(30 * time.Millisecond)
+					continue
+				}
+				if prev.empty && code != 202 {
+					if time.Since(start) > 3*time.Second {
+						rt.Fatalf("["+prop+"] %s: 3 s after rewrite %d declared the pipeline again, requests for it are still refused (%d)", plan, i, code)
+					}
+					time.Sleep(30 * time.Millisecond)
+					continue
+				}
 				if code != 202 {
 					rt.Fatalf("schedule after rewrite %d -> %d (%s)", i, code, plan)
 				}
@@ -259,13 +293,16 @@ func reloadBinary(t *testing.T, prop string) {
 				if got == cur.signature() {
 					break
 				}
-				if got != prev.signature() {
+				if got != prev.signature() && !prev.empty {
 					rt.Fatalf("["+prop+"] %s: after rewrite %d a job ran {%s}; the file said {%s} before and says {%s} now", plan, i, got, prev.signature(), cur.signature())
 				}
 				if time.Since(start) > 3*time.Second {
 					rt.Fatalf("["+prop+"] %s: 3 s after rewrite %d (version %d -> %d) newly accepted jobs still run the previous definition {%s} instead of {%s}", plan, i, prev.version, cur.version, got, cur.signature())
 				}
 				time.Sleep(30 * time.Millisecond)
+			}
+			if oldID == "" || cur.empty {
+				continue // (a job of a pipeline that is no longer defined may be purged at any save)
 			}
 			if got := observed(oldID); got != prev.signature() {
 				rt.Fatalf("["+prop+"] %s: a job accepted before rewrite %d ran {%s}; it was accepted under {%s}", plan, i, got, prev.signature())
